@@ -72,4 +72,5 @@ def run(idx, rep, tier):
     misc2.r_dupcond(idx, rep, [m.name for m in idx.lib_modules()], floor=3)
     siblings.r_segsibling(idx, rep)
     misc2.r_parallelsign(idx, rep, [x.name for x in idx.lib_modules() if x.name.startswith("distance3d.distance")])
+    degree.r_tolunit(idx, rep, [x.name for x in idx.lib_modules() if x.name.startswith("distance3d.distance")], floor=8)
     unpack.r_unpack(idx, rep, floor=45)
